@@ -77,13 +77,14 @@ class Waiting(process_states.Waiting):
         process: 'WorkChain',
         done_callback: Optional[Callable[..., Any]],
         msg: Optional[str] = None,
-        awaiting: Optional[Dict[Union[asyncio.Future, processes.Process], str]] = None,
+        awaiting: Optional[Dict[Union[asyncio.Future, processes.Process], Union[str, List[str]]]] = None,
     ) -> None:
         super().__init__(process, done_callback, msg, awaiting)
-        self._awaiting: Dict[asyncio.Future, str] = {}
-        for awaitable, key in (awaiting or {}).items():
+        # The context keys each awaitable is assigned to (the same awaitable may have been handed over under several keys)
+        self._awaiting: Dict[asyncio.Future, List[str]] = {}
+        for awaitable, keys in (awaiting or {}).items():
             resolved_awaitable = awaitable.future() if isinstance(awaitable, processes.Process) else awaitable
-            self._awaiting[resolved_awaitable] = key
+            self._awaiting.setdefault(resolved_awaitable, []).extend([keys] if isinstance(keys, str) else keys)
 
     def enter(self) -> None:
         super().enter()
@@ -96,9 +97,12 @@ class Waiting(process_states.Waiting):
             awaitable.remove_done_callback(self._awaitable_done)
 
     def _awaitable_done(self, awaitable: asyncio.Future) -> None:
-        key = self._awaiting.pop(awaitable)
+        keys = self._awaiting.pop(awaitable)
+        key = keys[0]
         try:
-            self.process.ctx[key] = awaitable.result()  # type: ignore
+            result = awaitable.result()
+            for key in keys:
+                self.process.ctx[key] = result  # type: ignore
         except asyncio.CancelledError:
             # A cancelled awaitable counts as failed.  asyncio's ``CancelledError`` is not an ``Exception`` (raising it
             # in the stepping task would cancel that task) so it is passed on as the regular ``CancelledError``
@@ -136,7 +140,7 @@ class WorkChain(mixins.ContextMixin, processes.Process):
     ) -> None:
         super().__init__(inputs=inputs, pid=pid, logger=logger, loop=loop, communicator=communicator)
         self._stepper: Optional[Stepper] = None
-        self._awaitables: Dict[Union[asyncio.Future, processes.Process], str] = {}
+        self._awaitables: Dict[Union[asyncio.Future, processes.Process], List[str]] = {}
 
     @classmethod
     def spec(cls) -> WorkChainSpec:
@@ -173,7 +177,8 @@ class WorkChain(mixins.ContextMixin, processes.Process):
         for key, awaitable in kwargs.items():
             resolved_awaitable = awaitable.future() if isinstance(awaitable, processes.Process) else awaitable
 
-            self._awaitables[resolved_awaitable] = key
+            # (a list: the same awaitable may be assigned to more than one key)
+            self._awaitables.setdefault(resolved_awaitable, []).append(key)
 
     async def run(self) -> Any:
         return self._do_step()
